@@ -53,6 +53,7 @@ func (a *RingIndex) List(opts IndexFindOpts) ([]*types.Flow, types.ListMeta) {
 
 	// Aggregate the relevant DiachronicFlows across the time range.
 	flowsByKey := map[types.FlowKey]*types.Flow{}
+	ids := map[*types.Flow]int64{}
 	for d := range keys.All() {
 		logCtx := logrus.WithField("id", d.ID)
 		if logrus.IsLevelEnabled(logrus.DebugLevel) {
@@ -66,6 +67,7 @@ func (a *RingIndex) List(opts IndexFindOpts) ([]*types.Flow, types.ListMeta) {
 			if flow != nil {
 				logCtx.Debug("Aggregated flow")
 				flowsByKey[*flow.Key] = flow
+				ids[flow] = d.ID
 			}
 		}
 	}
@@ -76,9 +78,14 @@ func (a *RingIndex) List(opts IndexFindOpts) ([]*types.Flow, types.ListMeta) {
 		flows = append(flows, flow)
 	}
 
-	// Sort the flows by start time, sorting newer flows first.
+	// Sort the flows by start time, sorting newer flows first. Flows with the same start time are ordered
+	// by their DiachronicFlow ID (like the other indices) so that the order - and with it pagination - is
+	// stable from one call to the next.
 	sort.Slice(flows, func(i, j int) bool {
-		return flows[i].StartTime > flows[j].StartTime
+		if flows[i].StartTime != flows[j].StartTime {
+			return flows[i].StartTime > flows[j].StartTime
+		}
+		return ids[flows[i]] < ids[flows[j]]
 	})
 
 	// Assign the total before the result is trimmed to match the page size and start page.
